@@ -71,10 +71,10 @@ theorem scan_split_with_limit (s : Store) (a m b : Bytes) (ts : Nat) (si : Bool)
 example : ChainOK [0x61] [[0x63], [0x66]] [] := by simp [ChainOK, Bytes.le, Bytes.cmp]
 
 /-- stable: once served, a read at `ts` is what every later state shows at `ts` (see Props/C01 for the guard) -/
-theorem snapshot_read_stable_every_run (ts : Nat) (k : Bytes) (s : Store) (cs : List Cmd) (v : Option Write)
+theorem snapshot_read_stable_every_run (ts : Nat) (k : Bytes) (s : Store) (cs : List Cmd) (rs : List Nat) (v : Option Write)
     (hs : SInv s) (hok : OkAll s cs) (hts : ts ≠ maxU64)
-    (hserved : getValue (getEntry s.kv k) k ts true [] = .ok v) (hg : SIGuardAll ts k [] s cs) :
+    (hserved : getValue (getEntry s.kv k) k ts true rs = .ok v) (hg : SIGuardAll ts k rs s cs) :
     firstVisible (getEntry (runAll s cs).kv k).writes ts = v :=
-  served_read_is_snapshot ts k s cs v hs hok hts hserved hg
+  served_read_is_snapshot ts k s cs rs v hs hok hts hserved hg
 
 end CGV.Props.C05
